@@ -152,8 +152,7 @@ func (s *Server) cmdSetHook(msg *Message) (
 	prevHook, _ := s.hooks.Get(&Hook{Name: name}).(*Hook)
 	if prevHook != nil {
 		if prevHook.channel != channel {
-			return NOMessage, d,
-				errors.New("hooks and channels cannot share the same name")
+			return NOMessage, d, errHookChanSameName
 		}
 		if prevHook.Equals(hook) {
 			// it was a match so we do nothing. But let's signal just
